@@ -236,51 +236,181 @@ theorem impossible_is_merge_error (cfg : Config) (l r : Node) (h : Impossible l 
     | set ra rms => exact absurd h (by simp [Impossible])
     | scalar ra v => exact absurd h (by simp [Impossible])
 
-/-! ## Key order and key set of a deep hash merge -/
+/-! ## Key order, key set and per-key content of a deep hash merge
 
-/-- **merge_order_ok_partial** (left-hand half of `OrderOK`, proved in full generality).
-FULL STATEMENT: `mergeDicts env (.map la l) par r = .ok (.map a m) → OrderOK l r m`.
-PROVED HERE: the first conjunct of `OrderOK` — the keys of `l` appear in `m` in their original
-relative order (exactly: the sub-list of `m`'s keys that are keys of `l` *is* `l`'s key list), for
-every configuration, every `l` and `r`.  MISSING: the second conjunct (keys only in `r` appear in
-`r`'s order); it needs the positional invariant "no right-only key sits at or after `buffer_pos`",
-not finished in this round.  The correspondence run checks both halves on the real code and
-compares the exact interleaving with the model. -/
-theorem merge_order_ok_partial (env : Env) (la : Option Str) (l : List (Key × Node)) (par : Node)
+`mergeDicts env (.map la l) par r` is `_merge_dicts(lhs, rhs)`: the DEEP merge of the right-hand
+mapping `par` (entries `r`) into the left-hand mapping with entries `l` — at the root
+(`root_hash_merge`) and, recursively, under every key present on both sides
+(`mergeVal_map_eq_mergeDicts`).  A Python `dict` has no duplicate keys; the model's entry lists can,
+so the theorems that speak about right-only keys carry `(keys r).Nodup` (shown necessary below). -/
+
+/-- A mapping unpacks only to itself. -/
+theorem mergeDicts_shape (env : Env) (la : Option Str) (l : List (Key × Node)) (par : Node)
     (r : List (Key × Node)) (m : Node) (h : mergeDicts env (.map la l) par r = .ok m) :
-    ∃ a es, m = .map a es ∧ (keys es).filter (fun k => (keys l).contains k) = keys l := by
+    ∃ st, dictLoop env par r ⟨l, [], 0⟩ = .ok st ∧ m = .map la (st.entries ++ st.buffer) := by
   unfold mergeDicts dictWrap at h
   simp only at h
   cases hl : dictLoop env par r ⟨l, [], 0⟩ with
   | error e => rw [hl] at h; cases h
-  | ok st =>
-    rw [hl] at h
-    cases h
-    refine ⟨la, _, rfl, ?_⟩
-    have hinv : InvL (keys l) ⟨l, [], 0⟩ := by
-      refine ⟨?_, by intro kv hkv; cases hkv⟩
-      simp only
+  | ok st => rw [hl] at h; cases h; exact ⟨st, rfl, rfl⟩
+
+/-- **lhs_order_kept** (left-hand half of `OrderOK`, no hypothesis on `r`): the sub-list of the
+merged mapping's keys that are keys of `l` *is* `l`'s key list — left-hand keys keep their relative
+order (and multiplicity) under every configuration. -/
+theorem lhs_order_kept (env : Env) (la : Option Str) (l : List (Key × Node)) (par : Node)
+    (r : List (Key × Node)) (m : Node) (h : mergeDicts env (.map la l) par r = .ok m) :
+    ∃ es, m = .map la es ∧ (keys es).filter (fun k => (keys l).contains k) = keys l := by
+  obtain ⟨st, hl, rfl⟩ := mergeDicts_shape env la l par r m h
+  refine ⟨_, rfl, ?_⟩
+  have hinv : InvL (keys l) ⟨l, [], 0⟩ := by
+    refine ⟨?_, by intro kv hkv; cases hkv⟩
+    simp only
+    apply List.filter_eq_self.mpr
+    intro k hk; simpa using hk
+  have := dictLoop_InvL env par (keys l) r _ _ hl hinv
+  simp only [keys, List.map_append, List.filter_append] at this ⊢
+  have hb : (st.buffer.map (·.1)).filter (fun k => (l.map (·.1)).contains k) = [] := by
+    apply List.filter_eq_nil_iff.mpr
+    intro k hk
+    obtain ⟨kv, hkv, rfl⟩ := List.mem_map.mp hk
+    simpa [keys] using this.2 kv hkv
+  rw [hb, List.append_nil]; exact this.1
+
+/-- **merge_order_ok.**  For every configuration, every left-hand mapping `l` and every right-hand
+mapping `r` (without duplicate keys — a Python `dict`), a successful deep hash merge yields a
+mapping `es` with `OrderOK l r es`: the keys of `l` appear in `es` in their original relative order,
+**and the keys only in `r` appear in `es` in `r`'s relative order** (exactly: the sub-list of `es`'s
+keys that are not keys of `l` *is* the sub-list of `r`'s keys that are not keys of `l`).  The
+right-only half rests on the loop invariant `InvR`: no right-only key sits at or after
+`buffer_pos`, so inserting the buffer at `buffer_pos` puts it behind every right-only key already
+placed. -/
+theorem merge_order_ok (env : Env) (la : Option Str) (l : List (Key × Node)) (par : Node)
+    (r : List (Key × Node)) (m : Node) (h : mergeDicts env (.map la l) par r = .ok m)
+    (hr : (keys r).Nodup) :
+    ∃ es, m = .map la es ∧ OrderOK l r es := by
+  obtain ⟨es, hm, hleft⟩ := lhs_order_kept env la l par r m h
+  obtain ⟨st, hl, hm'⟩ := mergeDicts_shape env la l par r m h
+  subst hm'
+  cases hm
+  refine ⟨_, rfl, hleft, ?_⟩
+  have hinv : InvR (keys l) ⟨l, [], 0⟩ := by
+    refine ⟨⟨?_, by intro kv hkv; cases hkv⟩, ?_⟩
+    · simp only
       apply List.filter_eq_self.mpr
       intro k hk; simpa using hk
-    have := dictLoop_InvL env par (keys l) r _ _ hl hinv
-    simp only [keys, List.map_append, List.filter_append] at this ⊢
-    have hb : (st.buffer.map (·.1)).filter (fun k => (l.map (·.1)).contains k) = [] := by
-      apply List.filter_eq_nil_iff.mpr
-      intro k hk
-      obtain ⟨kv, hkv, rfl⟩ := List.mem_map.mp hk
-      simpa [keys] using this.2 kv hkv
-    rw [hb, List.append_nil]; exact this.1
+    · intro k hk; simpa using hk
+  have := dictLoop_InvR env par (keys l) r _ _ hl hinv hr (by
+    intro k _ hL
+    refine ⟨by simpa using hL, by simp [keys]⟩)
+  rw [this]
+  have h0 : (keys l).filter (fun k => !(keys l).contains k) = [] := by
+    apply List.filter_eq_nil_iff.mpr
+    intro k hk; simpa using hk
+  simp only [h0, List.nil_append]
+  simp [keys]
 
-/-- **hash_deep_keys** (left-hand inclusion) / **lhs_only_content_preserved** (keys): every key of
-the left-hand mapping is a key of the merged mapping. -/
+/-- `(keys r).Nodup` is needed for the right-only half: with the key `x` twice in the right-hand
+entry list (impossible for a `dict`) the second `x` is merged into the first, already flushed one. -/
+example :
+    let l := [(Key.str "b".toList, Node.scalar none (.int 1))]
+    let r := [(Key.str "x".toList, Node.scalar none (.int 1)), (.str "b".toList, .scalar none (.int 2)),
+       (.str "x".toList, .scalar none (.int 3))]
+    let es := [(Key.str "b".toList, Node.scalar none (.int 2)), (.str "x".toList, .scalar none (.int 3))]
+    mergeDicts (prepare {} (.scalar none .null)) (.map none l) (.scalar none .null) r = .ok (.map none es) ∧
+    (keys es).filter (fun k => !(keys l).contains k) = [.str "x".toList] ∧
+    (keys r).filter (fun k => !(keys l).contains k) = [.str "x".toList, .str "x".toList] := by
+  decide +kernel
+
+/-- **hash_deep_keys** (both inclusions, no hypothesis on `l` or `r`): the key set of a deep hash
+merge is the union of the two key sets. -/
+theorem hash_deep_keys (env : Env) (la : Option Str) (l : List (Key × Node)) (par : Node)
+    (r : List (Key × Node)) (m : Node) (h : mergeDicts env (.map la l) par r = .ok m) :
+    ∃ es, m = .map la es ∧ ∀ k, k ∈ keys es ↔ k ∈ keys l ∨ k ∈ keys r := by
+  obtain ⟨st, hl, rfl⟩ := mergeDicts_shape env la l par r m h
+  refine ⟨_, rfl, fun k => ?_⟩
+  rw [dictLoop_mem_keys env par k r _ _ hl]
+  simp [keys]
+
+/-- Every left-hand key survives (one inclusion of `hash_deep_keys`, kept under its old name). -/
 theorem lhs_keys_kept (env : Env) (la : Option Str) (l : List (Key × Node)) (par : Node)
     (r : List (Key × Node)) (m : Node) (h : mergeDicts env (.map la l) par r = .ok m) :
     ∃ a es, m = .map a es ∧ ∀ k ∈ keys l, k ∈ keys es := by
-  obtain ⟨a, es, hm, hf⟩ := merge_order_ok_partial env la l par r m h
-  refine ⟨a, es, hm, ?_⟩
+  obtain ⟨es, hm, hk⟩ := hash_deep_keys env la l par r m h
+  exact ⟨la, es, hm, fun k hkl => (hk k).mpr (.inl hkl)⟩
+
+/-- **lhs_only_content_preserved** (keys, values and order; no hypothesis on `l` or `r`): left-hand
+content that the right-hand mapping does not name keeps its value — `es.get(k) = l.get(k)` for every
+key `k` that is not a key of `r` — and (`lhs_order_kept`) the left-hand keys keep their relative
+order. -/
+theorem lhs_only_content_preserved (env : Env) (la : Option Str) (l : List (Key × Node)) (par : Node)
+    (r : List (Key × Node)) (m : Node) (h : mergeDicts env (.map la l) par r = .ok m) :
+    ∃ es, m = .map la es ∧ (∀ k, k ∉ keys r → lookupKey k es = lookupKey k l) ∧
+      (keys es).filter (fun k => (keys l).contains k) = keys l := by
+  obtain ⟨es, hm, hleft⟩ := lhs_order_kept env la l par r m h
+  obtain ⟨st, hl, hm'⟩ := mergeDicts_shape env la l par r m h
+  subst hm'
+  cases hm
+  refine ⟨_, rfl, ?_, hleft⟩
   intro k hk
-  rw [← hf] at hk
-  exact (List.mem_filter.mp hk).1
+  have := dictLoop_look_notin env par k r _ _ hl (Disj_nil _ _) hk
+  simpa [look] using this
+
+/-- **merge_content_eq_spec** (deep hash merges, per-key lookup characterisation).  For every
+configuration, a successful `_merge_dicts` of a right-hand mapping `r` (no duplicate keys) into `l`
+yields a mapping `es` whose content is, key by key:
+* `k` not in `r`: `es.get(k) = l.get(k)` (absent stays absent, present keeps its value);
+* `k` in `r` with value `rv`: `Spec.Merged env par k (l.get(k)) rv (es.get(k))` — only in `r`: `rv`;
+  in both: the left value under LEFT, `rv` under RIGHT, else the recursive merge `mergeVal` of the
+  two values (LEFT/RIGHT/else is the policy of `rv`'s own kind or a rule for that node).
+Together with `hash_deep_keys` (key set = union) and `merge_order_ok` this determines the merged
+mapping up to the interleaving of left-hand and right-only keys. -/
+theorem merge_content_eq_spec (env : Env) (la : Option Str) (l : List (Key × Node)) (par : Node)
+    (r : List (Key × Node)) (m : Node) (h : mergeDicts env (.map la l) par r = .ok m)
+    (hr : (keys r).Nodup) :
+    ∃ es, m = .map la es ∧ (∀ k, k ∉ keys r → lookupKey k es = lookupKey k l) ∧
+      ∀ k rv, lookupKey k r = some rv → Merged env par k (lookupKey k l) rv (lookupKey k es) := by
+  obtain ⟨es, hm, hkeep, _⟩ := lhs_only_content_preserved env la l par r m h
+  obtain ⟨st, hl, hm'⟩ := mergeDicts_shape env la l par r m h
+  subst hm'
+  cases hm
+  refine ⟨_, rfl, hkeep, ?_⟩
+  intro k rv hrv
+  exact dictLoop_look env par r _ _ hl (Disj_nil _ _) hr (by intro k _; simp [keys]) k rv hrv
+
+/-- The recursion of `merge_content_eq_spec`: the merge of a right-hand mapping found under a shared
+key is again `_merge_dicts` (with that mapping as the rule-lookup parent), so the characterisation
+applies at every depth. -/
+theorem mergeVal_map_eq_mergeDicts (env : Env) (lv : Node) (c : Coords) (a : Option Str)
+    (res : List (Key × Node)) :
+    mergeVal env lv c (.map a res) = mergeDicts env lv (.map none res) res := by
+  simp only [mergeVal, mergeDicts]
+  have h := dictWrap_ok lv (dictLoop env (.map none res) res) (dictLoop_nc env (.map none res) res)
+  unfold syncTag
+  cases hd : dictWrap lv (dictLoop env (.map none res) res) with
+  | error e => rfl
+  | ok m => simp only [tagOf_ok_of_container (.inr (.inl (h.2 m hd)))]
+
+/-- At the root: a mapping merged into a mapping is, by the hash policy of the right-hand root,
+the left document, the right document, or `_merge_dicts` of the two. -/
+theorem root_hash_merge (cfg : Config) (la ra : Option Str) (l r : List (Key × Node)) :
+    mergeWith cfg (.map la l) (.map ra r) =
+      match hashMode (prepare cfg (.map ra r)) ⟨.map ra r, none, none⟩ with
+      | .error e => .error e
+      | .ok .left => .ok (.map la l)
+      | .ok .right => .ok (.map ra r)
+      | .ok .deep => mergeDicts (prepare cfg (.map ra r)) (.map la l) (.map ra r) r := by
+  simp only [mergeWith, insertDict]
+  cases hm : hashMode (prepare cfg (.map ra r)) ⟨.map ra r, none, none⟩ with
+  | error e => simp [rootTagSync]
+  | ok mode =>
+    cases mode with
+    | left => simp [rootTagSync, tagOf]
+    | right => simp [rootTagSync, tagOf]
+    | deep =>
+      simp only
+      cases hd : mergeDicts (prepare cfg (.map ra r)) (.map la l) (.map ra r) r with
+      | error e => simp [rootTagSync]
+      | ok m => simp [rootTagSync, tagOf]
 
 /-! ## Witnesses: the hypotheses are met by concrete values, and the interleaving of the design note -/
 
